@@ -1481,6 +1481,74 @@ fn main() {
             }
             println!("RESULT enum:random-hayson-spellings seed={seed}: {count} random values in random legal Hayson spellings are decoded to the value they denote");
         }
+        // ---- C08 (and C07 through it): seeded random filter trees, every term kind and literal kind, printed by the library and by an independent
+        //      printer with random legal spacing; both texts must parse back to the tree they were printed from
+        "enum:random-filters" => {
+            use libhaystack::filter::nodes::*;
+            use libhaystack::filter::path::Path;
+            use libhaystack::filter::Filter;
+            use libhaystack::val::{Date, DateTime, Ref, Symbol, Time};
+            use randgen::Rng;
+            let seed: u64 = std::env::var("VERIF_SEED").ok().and_then(|s| s.parse().ok()).unwrap_or(0);
+            let count: usize = args.get(2).and_then(|s| s.parse().ok()).unwrap_or(800);
+            let mut rng = Rng::seeded(seed ^ 0x0F0F);
+            let path_texts = ["a", "siteRef", "x1", "camelCase", "a->b", "equipRef->siteRef->dis", "with_under->n"];
+            let paths: Vec<(Path, &str)> = path_texts.iter().map(|t| match &Filter::try_from(*t).expect("path").or.ands[0].terms[0] { Term::Has(h) => (h.path.clone(), *t), _ => panic!("path") }).collect();
+            fn ws(rng: &mut Rng) -> &'static str { ["", " ", "  ", "\n", " \t"][rng.below(5)] }
+            fn sp(rng: &mut Rng) -> &'static str { [" ", "  ", "\n", " \t "][rng.below(4)] }
+            let lit = |rng: &mut Rng| -> (Value, String) {
+                match rng.below(10) {
+                    0 => { let x = *rng.pick(&[0.0, 1.0, -1.5, 1e-7, 123456.789, 1e21, -9876543210.5, 0.1 + 0.2]); let v = Value::make_number(x); let t = if rng.below(2) == 0 { format!("{x:e}") } else { format!("{x}") }; (v, t) }
+                    1 => { let u = libhaystack::units::get_unit_or_default(*rng.pick(&["kg", "%", "kW", "s"])); let x = *rng.pick(&[5.0, -2.5, 100.0]); (Value::make_number_unit(x, u), format!("{x}{}", u.symbol())) }
+                    2 => { let t = *rng.pick(&["", "a b", "q\"uote", "back\\slash", "$d", "\u{e9}\n"]); (Value::make_str(t), { use libhaystack::encoding::zinc::encode::ToZinc; Value::make_str(t).to_zinc_string().unwrap() }) }
+                    3 => (Value::make_ref("p:demo:r:1"), "@p:demo:r:1".into()),
+                    4 => (Value::make_ref_with_dis("s-1", "Site 1"), "@s-1 \"Site 1\"".into()),
+                    5 => (Value::make_uri("http://x/y?z=1"), "`http://x/y?z=1`".into()),
+                    6 => (Value::make_symbol("hot-water"), "^hot-water".into()),
+                    7 => { let b = rng.below(2) == 0; (Value::make_bool(b), if b { "true".into() } else { "false".into() }) }
+                    8 => if rng.below(2) == 0 { (Value::make_date(Date::from_ymd(2021, 6, 1).unwrap()), "2021-06-01".into()) } else { (Value::make_time(Time::from_hms_milli(12, 30, 5, 500).unwrap()), "12:30:05.5".into()) },
+                    _ => if rng.below(2) == 0 { (Value::make_datetime(DateTime::parse_from_rfc3339("2021-06-01T12:00:00Z").unwrap()), "2021-06-01T12:00:00Z".into()) }
+                         else { (Value::make_datetime(DateTime::parse_from_rfc3339_with_timezone("2021-06-01T12:00:00-04:00", "New_York").unwrap()), "2021-06-01T12:00:00-04:00 New_York".into()) },
+                }
+            };
+            fn gen_or(rng: &mut Rng, depth: usize, paths: &[(Path, &str)], lit: &dyn Fn(&mut Rng) -> (Value, String)) -> (Or, String) {
+                let n = 1 + rng.below(3); let mut ands = vec![]; let mut t = String::new();
+                for i in 0..n { let (a, at) = gen_and(rng, depth, paths, lit); if i > 0 { t.push_str(sp(rng)); t.push_str("or"); t.push_str(sp(rng)); } t.push_str(&at); ands.push(a); }
+                (Or { ands }, t)
+            }
+            fn gen_and(rng: &mut Rng, depth: usize, paths: &[(Path, &str)], lit: &dyn Fn(&mut Rng) -> (Value, String)) -> (And, String) {
+                let n = 1 + rng.below(3); let mut terms = vec![]; let mut t = String::new();
+                for i in 0..n { let (a, at) = gen_term(rng, depth, paths, lit); if i > 0 { t.push_str(sp(rng)); t.push_str("and"); t.push_str(sp(rng)); } t.push_str(&at); terms.push(a); }
+                (And { terms }, t)
+            }
+            fn gen_term(rng: &mut Rng, depth: usize, paths: &[(Path, &str)], lit: &dyn Fn(&mut Rng) -> (Value, String)) -> (Term, String) {
+                let (p, pt) = paths[rng.below(paths.len())].clone();
+                match rng.below(if depth < 2 { 8 } else { 7 }) {
+                    0 => (Term::Has(Has { path: p }), pt.to_string()),
+                    1 => (Term::Missing(Missing { path: p }), format!("not{}{pt}", sp(rng))),
+                    2 | 3 => { let (op, ot) = [(CmpOp::Eq, "=="), (CmpOp::NotEq, "!="), (CmpOp::LessThan, "<"), (CmpOp::LessThanEq, "<="), (CmpOp::GreatThan, ">"), (CmpOp::GreatThanEq, ">=")][rng.below(6)].clone();
+                        let (v, vt) = lit(rng); (Term::Cmp(Cmp { path: p, op, value: v }), format!("{pt}{}{ot}{}{vt}", ws(rng), ws(rng))) }
+                    4 => (Term::IsA(IsA { symbol: Symbol::from("site") }), "^site".into()),
+                    5 => (Term::WildcardEq(WildcardEq { id: p, ref_value: Ref::make("r1", None) }), format!("{pt}{}*=={}@r1", ws(rng), ws(rng))),
+                    6 => match rng.below(3) { 0 => (Term::Relation(Relation { rel: Symbol::from("inputs"), rel_term: None, ref_value: None }), "inputs?".into()),
+                        1 => (Term::Relation(Relation { rel: Symbol::from("inputs"), rel_term: Some(Symbol::from("air")), ref_value: None }), format!("inputs?{}^air", sp(rng))),
+                        _ => (Term::Relation(Relation { rel: Symbol::from("inputs"), rel_term: Some(Symbol::from("air")), ref_value: Some(Ref::make("r1", None)) }), format!("inputs?{}^air{}@r1", sp(rng), sp(rng))) },
+                    _ => { let (o, ot) = gen_or(rng, depth + 1, paths, lit); (Term::Parens(Parens { or: o }), format!("({}{ot}{})", ws(rng), ws(rng))) }
+                }
+            }
+            for i in 0..count {
+                let (or, text) = gen_or(&mut rng, 0, &paths, &lit);
+                let want = Filter { or };
+                for (what, t) in [("the independent printer's text", text.clone()), ("the library's own text", want.to_string())] {
+                    let got = Filter::try_from(t.as_str());
+                    if !matches!(&got, Ok(g) if *g == want) {
+                        println!("RESULT enum:random-filters seed={seed} filter #{i}: {what} {t:?} parses to {:?}, the tree it was printed from is {:?}", got.map(|g| g.to_string()), want.to_string());
+                        std::process::exit(3);
+                    }
+                }
+            }
+            println!("RESULT enum:random-filters seed={seed}: {count} random filter trees come back from the library's text and from an independent spelling with random spacing");
+        }
         // ---- C09 enumerator (evaluation half): `id *== @ref` over resolvers whose refs form chains and cycles of several shapes must
         //      terminate with the right answer; a run that does not come back is reported as a hang by the caller's watchdog
         "enum:wildcard-cycles" => {
